@@ -69,6 +69,7 @@ type entry struct {
 }
 
 type shape struct {
+	only   string // emit this shape only for that property
 	name   string
 	family string
 	root   *structT
@@ -160,6 +161,9 @@ func val(k *leafKind, tn string, i int) string {
 
 // emit writes one shape: declarations, fill function, checks.
 func (g *gen) emit(sh *shape) {
+	if sh.only != "" && !g.want(sh.only) {
+		return
+	}
 	var structs []*structT
 	allStructs(sh.root, &structs)
 	var src []string
@@ -218,6 +222,11 @@ func (g *gen) emit(sh *shape) {
 
 	g.pf("func init() {\n\trt.Register(rt.Shape{Name: %q, Family: %q, Source: %q, Run: func(c *rt.Ctx) {\n", sh.name, sh.family, strings.Join(src, "\n"))
 	g.pf("\t\tfill := fill_%s\n\t\t_ = fill\n", S)
+	if sh.only != "" {
+		sh.extra(g, sh)
+		g.pf("\t}})\n}\n\n")
+		return
+	}
 
 	// ---- C01 / C02: one lens per focusable entry, by type and by name, Lens and Reflector
 	g.pf("\t\tif c.Is(\"C01\") || c.Is(\"C02\") {\n")
@@ -411,6 +420,17 @@ func productN(g *gen, sh *shape, order []entry, byName bool, tag string) {
 		args = strings.Join(names, ", ")
 	}
 	lbl := fmt.Sprintf("%s[%s, %s](%s)", tag, S, strings.Join(ts, ", "), args)
+	if g.want("C04") && (n == 2 || n == 3) {
+		g.pf("\t\tif c.Is(\"C04\") {\n\t\t\trt.Derive(c, %q, func() {\n", fmt.Sprintf("ForShape%d%s", n, lbl))
+		g.pf("\t\t\t\trt.Shape%d(c, %q, optics.ForShape%d[%s, %s](%s)", n, fmt.Sprintf("ForShape%d%s", n, lbl), n, S, strings.Join(ts, ", "), args)
+		for _, e := range order {
+			g.pf(", func(p *%s) *%s { return &p%s }", S, e.f.typ, e.path)
+		}
+		for _, e := range order {
+			g.pf(", []%s{%s, %s, %s}", e.f.typ, val(e.f.leaf, e.f.typ, 0), val(e.f.leaf, e.f.typ, 1), val(e.f.leaf, e.f.typ, 2))
+		}
+		g.pf(", fill)\n\t\t\t})\n\t\t}\n")
+	}
 	if g.want("C02") && byName {
 		emitTooFew(g, S, n, ts, names)
 	}
@@ -640,6 +660,110 @@ func specialShapes() []*shape {
 	return out
 }
 
+// joinShapes: nested named-field structs (not embedded) to the given depth, the leaf either a plain field of the
+// innermost struct or promoted from a struct embedded by value in it; optional fields before and after at each level.
+func joinShapes(depth int, prePost [][]int, viaEmbedded bool, prefix string) []*shape {
+	var out []*shape
+	choices := []int{-1, 1, 5, 6}
+	for idx, pp := range prePost {
+		sh := &shape{name: fmt.Sprintf("%s%d", prefix, idx+1), family: "join", only: "C04"}
+		levels := depth + 1
+		var cur *structT
+		names := []string{"A", "B", "C", "D"}
+		var leaf field
+		for lvl := levels - 1; lvl >= 0; lvl-- {
+			st := &structT{name: fmt.Sprintf("%s_L%d", sh.name, lvl)}
+			if lvl == 0 {
+				st.name = sh.name
+			}
+			pre, post := choices[pp[2*lvl]], choices[pp[2*lvl+1]]
+			if pre >= 0 {
+				st.fields = append(st.fields, mkLeaf(sh, sh.name, fmt.Sprintf("p%d", lvl), pre, idx+lvl, idx+lvl+1))
+			}
+			if lvl == levels-1 {
+				leaf = mkLeaf(sh, sh.name, "c", 4+(idx%4), idx, idx)
+				if viaEmbedded {
+					emb := &structT{name: sh.name + "_E"}
+					emb.fields = []field{mkLeaf(sh, sh.name, "ex", 1, idx, idx), leaf}
+					st.fields = append(st.fields, field{name: emb.name, typ: emb.name, embedded: true, sub: emb})
+				} else {
+					st.fields = append(st.fields, leaf)
+				}
+			} else {
+				st.fields = append(st.fields, field{name: names[lvl], typ: cur.name, sub: cur})
+			}
+			if post >= 0 {
+				st.fields = append(st.fields, mkLeaf(sh, sh.name, fmt.Sprintf("q%d", lvl), post, idx+lvl+1, idx+lvl+2))
+			}
+			cur = st
+		}
+		sh.root = cur
+		lf, via := leaf, viaEmbedded
+		sh.extra = func(g *gen, s *shape) {
+			R := s.root.name
+			// chain of struct types and field names from the root to the innermost struct
+			var types, fnames []string
+			st := s.root
+			for {
+				types = append(types, st.name)
+				var next *structT
+				for _, f := range st.fields {
+					if f.sub != nil && !f.embedded {
+						next = f.sub
+						fnames = append(fnames, f.name)
+					}
+				}
+				if next == nil {
+					break
+				}
+				st = next
+			}
+			path := ""
+			for _, n := range fnames {
+				path += "." + n
+			}
+			if via {
+				path += "." + s.name + "_E"
+			}
+			path += "." + lf.name
+			vals := fmt.Sprintf("[]%s{%s, %s, %s}", lf.typ, val(lf.leaf, lf.typ, 0), val(lf.leaf, lf.typ, 1), val(lf.leaf, lf.typ, 2))
+			g.pf("\t\tif c.Is(\"C04\") {\n\t\t\trt.Derive(c, \"Join over %s\", func() {\n", R+path)
+			for _, byName := range []bool{true, false} {
+				var ls []string
+				for i := range fnames {
+					arg := ""
+					if byName {
+						arg = fmt.Sprintf("%q", fnames[i])
+					}
+					ls = append(ls, fmt.Sprintf("optics.ForProduct1[%s, %s](%s)", types[i], types[i+1], arg))
+				}
+				arg := ""
+				if byName {
+					arg = fmt.Sprintf("%q", lf.key())
+				}
+				ls = append(ls, fmt.Sprintf("optics.ForProduct1[%s, %s](%s)", types[len(types)-1], lf.typ, arg))
+				// left-nested and right-nested association
+				left := ls[0]
+				for _, l := range ls[1:] {
+					left = fmt.Sprintf("optics.Join(%s, %s)", left, l)
+				}
+				right := ls[len(ls)-1]
+				for i := len(ls) - 2; i >= 0; i-- {
+					right = fmt.Sprintf("optics.Join(%s, %s)", ls[i], right)
+				}
+				sel := fmt.Sprintf("func(p *%s) *%s { return &p%s }", R, lf.typ, path)
+				g.pf("\t\t\t\trt.Lens(c, %q, %s, %s, %s, fill)\n", fmt.Sprintf("left-nested Join to %s%s (by name: %v)", R, path, byName), left, sel, vals)
+				if len(ls) > 2 {
+					g.pf("\t\t\t\trt.Lens(c, %q, %s, %s, %s, fill)\n", fmt.Sprintf("right-nested Join to %s%s (by name: %v)", R, path, byName), right, sel, vals)
+				}
+			}
+			g.pf("\t\t\t})\n\t\t}\n")
+		}
+		out = append(out, sh)
+	}
+	return out
+}
+
 func main() {
 	out := flag.String("out", "", "output directory (a Go module root)")
 	tier := flag.String("tier", "quick", "quick | thorough")
@@ -667,6 +791,19 @@ func main() {
 	all = append(all, embedShapes("P2a_", "embedptr", 2, uniform(2, 4), 0, 0)...)
 	all = append(all, embedShapes("P2b_", "embedptr", 2, uniform(2, 4), 1, 0)...)
 	all = append(all, specialShapes()...)
+	if *prop == "" || *prop == "C04" {
+		if *tier == "thorough" {
+			all = append(all, joinShapes(1, combos(4, 4), false, "J1_")...)
+			all = append(all, joinShapes(2, combos(6, 3), false, "J2_")...)
+		} else {
+			all = append(all, joinShapes(1, combos(4, 3), false, "J1_")...)
+			all = append(all, joinShapes(2, uniform(3, 4), false, "J2_")...)
+		}
+		all = append(all, joinShapes(3, uniform(4, 4), false, "J3_")...)
+		all = append(all, joinShapes(1, combos(4, 3), true, "J1e_")...)
+		all = append(all, joinShapes(2, uniform(3, 4), true, "J2e_")...)
+		all = append(all, joinShapes(3, uniform(4, 3), true, "J3e_")...)
+	}
 
 	gens := make([]*gen, *shards)
 	for i := range gens {
